@@ -386,6 +386,13 @@ _tmvn_variance.is_property = True
 INF = z3.Real("INF")  # +infinity of the float format: larger than every finite value that is introduced
 
 
+def inf(ctx):
+    if ctx is not None and not ctx.ghost.get("inf_bounded"):
+        ctx.ghost["inf_bounded"] = True
+        ctx.add_axiom(INF > z3.RealVal("1e30"), "inf exceeds every literal constant of the code (> 1e30)")
+    return INF
+
+
 @op("torch.get_default_dtype")
 def _get_default_dtype(it, ctx, a, k):
     return VAtom("torch.float")
@@ -394,7 +401,7 @@ def _get_default_dtype(it, ctx, a, k):
 def _inf_aware_tensor(it, ctx, a, k):
     x = a[0]
     if isinstance(x, VAtom) and x.name.startswith("float:"):
-        t = {"float:inf": INF, "float:-inf": -INF}.get(x.name)
+        t = {"float:inf": inf(ctx), "float:-inf": -inf(ctx)}.get(x.name)
         if t is None:
             raise Undecided("nan constant")
         return E.scalar(t)
@@ -493,3 +500,139 @@ def _Normal(it, ctx, a, k):
     loc = a[0] if a else k["loc"]
     scale = a[1] if len(a) > 1 else k["scale"]
     return VNormal(loc, scale)
+
+
+# ============================================================================ more linear operators ==
+@op("linear_operator.operators.ConstantDiagLinearOperator")
+def _ConstDiag(it, ctx, a, k):
+    """diag_values: (..., 1); diag_shape n  ->  (..., n, n) with value on the diagonal"""
+    dv = a[0] if a else k["diag_values"]
+    n = k.get("diag_shape", a[1] if len(a) > 1 else None)
+    n = _int_term(n)
+    if len(dv.dims) == 0 or not E._dim_is_one(ctx, dv.dims[-1]):
+        raise PyRaise(VExc("ValueError", "diag_values must have last dimension 1"))
+    dv = dv.frozen()
+    lead = dv.dims[:-1]
+    nl = sum(len(d.atoms) for d in lead)
+
+    def elem(idx):
+        i, j = idx[nl], idx[nl + 1]
+        v = dv.elem(idx[:nl] + [z3.IntVal(0)])
+        return z3.If(i == j, E.to_real(v), z3.RealVal(0))
+
+    return VTensor(lead + [Dim([n]), Dim([n])], elem, "real", True, linop_class="ConstantDiagLinearOperator")
+
+
+class VZeroLinop(V):
+    """ZeroLinearOperator() without sizes: the additive identity"""
+
+    kind = "zerolinop"
+    is_linop = True
+
+    def isinstance_of(self, name):
+        return name.split(".")[-1] in ("ZeroLinearOperator", "LinearOperator")
+
+    def py_binop(self, it, ctx, op, other, reflected):
+        if op == "+":
+            return other
+        if op == "-" and reflected:
+            return other
+        return NotImplemented
+
+    def py_getattr(self, it, ctx, name):
+        if name in ("evaluate_kernel", "to_dense"):
+            return VBuiltin(name, lambda it, ctx, a, k: self)
+        raise Undecided(f"ZeroLinearOperator.{name}")
+
+    def describe(self):
+        return "ZeroLinearOperator()"
+
+
+@op("linear_operator.operators.ZeroLinearOperator")
+def _Zero(it, ctx, a, k):
+    if not a:
+        return VZeroLinop()
+    sizes = [_int_term(x) for x in a]
+    return VTensor([Dim([s]) for s in sizes], lambda idx: z3.RealVal(0), "real", True, linop_class="ZeroLinearOperator")
+
+
+def _kron(ctx, A, B, cls):
+    A, B = A.frozen(), B.frozen()
+    for t in (A, B):
+        for p in (len(t.dims) - 2, len(t.dims) - 1):
+            pass
+    A2 = E.flatten_dim(E.flatten_dim(A, len(A.dims) - 1), len(A.dims) - 2)
+    B2 = E.flatten_dim(E.flatten_dim(B, len(B.dims) - 1), len(B.dims) - 2)
+    ab = VTensor(A2.dims[:-2], lambda idx: z3.IntVal(0), "int")
+    bb = VTensor(B2.dims[:-2], lambda idx: z3.IntVal(0), "int")
+    if A2.dims[:-2] or B2.dims[:-2]:
+        bdims, maps = E.broadcast_dims(ctx, [ab, bb])
+    else:
+        bdims, maps = [], [[], []]
+    nb = sum(len(d.atoms) for d in bdims)
+    ra, ca = A2.dims[-2].size, A2.dims[-1].size
+    rb, cb = B2.dims[-2].size, B2.dims[-1].size
+
+    def bidx(t_dims, mp, per_dim):
+        off = len(bdims) - len(t_dims)
+        out = []
+        for di, d in enumerate(t_dims):
+            how = mp[off + di]
+            if how == "same":
+                out.extend(per_dim[off + di])
+            elif how == "reflat":
+                out.append(E.flat_index(bdims[off + di].atoms, per_dim[off + di]))
+            else:
+                out.extend([z3.IntVal(0)] * len(d.atoms))
+        return out
+
+    def elem(idx):
+        per_dim = []
+        p = 0
+        for d in bdims:
+            per_dim.append(idx[p: p + len(d.atoms)])
+            p += len(d.atoms)
+        i, a_, j, c_ = idx[nb], idx[nb + 1], idx[nb + 2], idx[nb + 3]
+        av = A2.elem(bidx(A2.dims[:-2], maps[0], per_dim) + [i, j])
+        bv = B2.elem(bidx(B2.dims[:-2], maps[1], per_dim) + [a_, c_])
+        return E.to_real(av) * E.to_real(bv)
+
+    return VTensor(bdims + [Dim([ra, rb]), Dim([ca, cb])], elem, "real", True, linop_class=cls)
+
+
+@op("linear_operator.operators.KroneckerProductLinearOperator")
+def _KronLO(it, ctx, a, k):
+    if len(a) != 2:
+        raise Undecided("Kronecker product of other than two factors")
+    return _kron(ctx, a[0], a[1], "KroneckerProductLinearOperator")
+
+
+@op("linear_operator.operators.KroneckerProductDiagLinearOperator")
+def _KronDiagLO(it, ctx, a, k):
+    if len(a) != 2:
+        raise Undecided("Kronecker product of other than two factors")
+    return _kron(ctx, a[0], a[1], "KroneckerProductDiagLinearOperator")
+
+
+@op("linear_operator.operators.RootLinearOperator")
+def _RootLO(it, ctx, a, k):
+    F = a[0]
+    r = E.matmul(ctx, F, E.transpose(ctx, F, -2, -1))
+    r.is_linop = True
+    r.linop_class = "RootLinearOperator"
+    r.meta["root"] = F
+    return r
+
+
+_rand_counter = [0]
+
+
+@op("torch.randn", "torch.rand", "torch.randn_like", "torch.rand_like")
+def _randn(it, ctx, a, k):
+    """random initial values: an arbitrary tensor of the requested shape"""
+    _rand_counter[0] += 1
+    if a and isinstance(a[0], VTensor):
+        sizes = [d.size for d in a[0].dims]
+    else:
+        sizes = E._shape_args(it, ctx, a)
+    return E.sym_tensor(f"rand{_rand_counter[0]}", sizes)
